@@ -199,6 +199,20 @@ func checkC18(c *Ctx) {
 			r.Unk("C18.2", "PhantomIsLive: probe call", f.Pos(), fnName(f), "call through the phantomIsLive field not found")
 		} else {
 			verdict := pathOf(probe) + "#0"
+			// once the phantom was probed, the answer is what the probe measured (whatever error came with it): no
+			// other record of an earlier verdict is consulted after the probe
+			eachInstr(f, func(in ssa.Instruction) {
+				ret, ok := in.(*ssa.Return)
+				if !ok || len(ret.Results) != 2 || ret.Block().Comment == "recover" {
+					return
+				}
+				if after, _ := reach(f, probe, isInstr(ret), nil, nil); !after {
+					return
+				}
+				rv := pathOf(returnedValue(ret, 0, nil))
+				r.Check(rv == verdict, "C18.2", "PhantomIsLive: after a probe the answer is the probe's verdict", ret.Pos(), fnName(f), firstN(rv, 60),
+					"after probing, PhantomIsLive answers "+firstN(rv, 60)+" instead of the verdict the probe just measured: a remembered verdict of any age (or a flipped one) is served in place of the measurement")
+			})
 			for _, call := range callsIn(f, shortIs("Add")) {
 				cc := call.(*ssa.Call)
 				if !cc.Call.IsInvoke() {
@@ -469,6 +483,30 @@ func checkC18(c *Ctx) {
 			r.Check(!esc, "C18.5", "lruCache.Add: every map insert is followed by lru.Add(key)", ins.Pos(), fnName(f), "must-pass",
 				"an entry can be inserted into the verdict map without being registered in the LRU: it is never evicted and the cache exceeds its capacity")
 		}
+	}
+	// ... and so is every other insertion into the LRU cache's verdict map, wherever it is made
+	for _, f := range fns {
+		if f.Name() == "Add" || f.Signature.Recv() == nil || !strings.HasSuffix(typeShort(f.Signature.Recv().Type()), "liveness.lruCache") {
+			continue
+		}
+		eachInstr(f, func(in ssa.Instruction) {
+			mu, ok := in.(*ssa.MapUpdate)
+			if !ok || !strings.HasSuffix(pathOf(mu.Map), ".ipCache") {
+				return
+			}
+			kp := pathOf(mu.Key)
+			isLruAdd := func(in2 ssa.Instruction) bool {
+				call, ok := in2.(*ssa.Call)
+				return ok && strings.HasSuffix(calleeName(&call.Call), "golang-lru.Cache).Add") && pathOf(call.Call.Args[1]) == kp
+			}
+			esc, w := reach(f, in, isReturn, isLruAdd, nil)
+			if esc {
+				r.Bad("C18.5", fnName(f)+": a map insert that is not registered with the LRU", in.Pos(), fnName(f),
+					"an entry is put into the verdict map without lru.Add for its key: the LRU does not count it, never evicts it and the sweep cannot remove it - the cache grows past its configured capacity", r.blockPath(f, w)...)
+			} else {
+				r.OK("C18.5", fnName(f)+": map insert followed by lru.Add(key)", in.Pos(), "must-pass")
+			}
+		})
 	}
 	if f := c.fn("C18.5", lv, "", "newLRUCache"); f != nil {
 		var nw *ssa.Call
